@@ -18,12 +18,15 @@ pub fn supplies(quick: bool) -> Vec<SupplySpec> {
         SupplySpec::Periodic { q: 2, p: 3 },
         SupplySpec::Constrained { q: 1, dl: 2, p: 3 },
         SupplySpec::Opaque(Box::new(SupplySpec::Periodic { q: 2, p: 5 })),
+        // budget = deadline < period, and budget = period
+        SupplySpec::Constrained { q: 2, dl: 2, p: 4 },
+        SupplySpec::Periodic { q: 3, p: 3 },
     ];
     if !quick {
         v.push(SupplySpec::Periodic { q: 1, p: 3 });
         v.push(SupplySpec::Periodic { q: 3, p: 5 });
         v.push(SupplySpec::Constrained { q: 2, dl: 3, p: 5 });
-        v.push(SupplySpec::Constrained { q: 2, dl: 2, p: 4 });
+        v.push(SupplySpec::Constrained { q: 3, dl: 3, p: 3 });
         v.push(SupplySpec::Opaque(Box::new(SupplySpec::Constrained {
             q: 1,
             dl: 2,
